@@ -826,6 +826,47 @@ def gen_goals(rng, n):
     return goals
 
 
+# ====================================================================== directed scenarios
+# Scripted sequences aimed at bookkeeping that random generation reaches rarely.  Each must complete
+# on a correct implementation; every step is judged like any other.
+DIRECTED = [
+    # a gap cited from inside a later subproof is closed by a forward step: replace_id has to
+    # re-point the citation inside the subproof
+    {"name": "replace-id-cited-in-subproof", "theory": "logic", "vars": {"A": "bool", "B": "bool", "C": "bool"},
+     "prop": "A & B --> C --> B & A",
+     "steps": [
+         {"method_name": "revert_intro", "goal_id": "2", "fact_ids": ["1"]},
+         {"method_name": "cut", "goal_id": "1", "fact_ids": [], "goal": "B"},
+         {"method_name": "introduction", "goal_id": "2", "fact_ids": []},
+         {"method_name": "apply_backward_step", "goal_id": "2.1", "fact_ids": ["1"], "theorem": "conjI"},
+         {"method_name": "apply_forward_step", "goal_id": "1", "fact_ids": ["0"], "theorem": "conjD2"},
+     ]},
+    # two new gaps, the first already proved by an earlier line, the second not: the trivial-closing
+    # loop of apply_tactic must not touch the second
+    {"name": "apply-tactic-proved-then-open", "theory": "logic", "vars": {"A": "bool", "B": "bool", "C": "bool"},
+     "prop": "(A --> C) --> (A | B) --> C",
+     "steps": [
+         {"method_name": "apply_backward_step", "goal_id": "2", "fact_ids": ["1"], "theorem": "disjE"},
+     ]},
+]
+
+
+def run_directed(ctx, rng, recorder=None, **kw):
+    from logic import basic
+    for sc in DIRECTED:
+        basic.load_theory(sc["theory"])
+        g = Goal(sc["theory"], "directed:" + sc["name"], dict(sc["vars"]), sc["prop"], steps=sc["steps"], generated=True)
+        for on_copy in (False, True):
+            r = Runner(ctx, g, rng, 1.0, recorder, **kw)
+            for st in sc["steps"]:
+                out = r.apply(dict(st), on_copy=on_copy, adopt=True, source="directed")
+                if out != "ok":
+                    ctx.count("directed-incomplete:%s" % sc["name"])
+                    ctx.log("directed scenario %s stopped at %s: %s" % (sc["name"], st["method_name"], r.trail[-1:] and r.trail[-1].get("outcome")))
+                    break
+            r.check_frozen()
+
+
 # ====================================================================== sequences
 def run_recorded(ctx, goal, rng, perturb_rate, export_rate, recorder=None, **kw):
     """Replay the recorded steps; with probability `perturb_rate` per position inject a
@@ -1246,6 +1287,7 @@ def oracle_streams(ctx, recorder=None):
         ctx.log("theory %s: %d goals, %d cases so far" % (thy, len(goals), ctx.coverage["evaluations"]))
     # generated goals
     from logic import basic
+    run_directed(ctx, ctx.rng("directed"), recorder)
     basic.load_theory("logic")
     rng = ctx.rng("generated")
     for g in gen_goals(rng, ctx.scale(40, 600)):
